@@ -283,3 +283,56 @@ CHECKS["C15"] = dict(
                require=["corpus_files", "accepted_by_verify", "rejected_by_verify", "overload1_returned", "overload1_threw", "overload2_threw", "overload3_threw"]),
           dict(name="c15bclang", src=["w_cpp.cpp", "vh.c"], lib=CPPLIB, build="casan", mode="c15b", cases=(0, 600000), thorough_only=True)],
 )
+
+for _cc in ("gcc", "clang"):
+    for _o in ("O0", "O2", "Os"):
+        for _ch, _fl in (("s", "-fsigned-char"), ("u", "-funsigned-char")):
+            BUILDS["%s%s%s" % (_cc, _o, _ch)] = dict(cc=_cc, cxx="g++" if _cc == "gcc" else "clang++", flags="-%s -g %s" % (_o, _fl))
+XS = ["w_xscript.c", "vh.c"]
+ENGINE_NOTES["w_xscript.c"] = "transcript worker: one digest per seeded scenario, compared across build configurations"
+_XSB = ["gccO2s", "gccO0s", "gccOss", "gccO0u", "gccO2u", "gccOsu", "clangO0s", "clangO2s", "clangOss", "clangO0u", "clangO2u", "clangOsu", "gasan", "casan"]
+CHECKS["C18"] = dict(
+    level_text="A transcript worker replays a seeded scenario corpus touching every public C function (init/verify verdicts and codes, scripted call lists with all getters and lookups, get_raw/to_writer, "
+               "to_string at cut capacities, captured print output, writer call lists at cut capacities, writer_verify/reset) and emits one digest per scenario; the digests must be identical under "
+               "{gcc,clang} x {-O0,-O2,-Os} x {-fsigned-char,-funsigned-char} and under gcc/clang ASan+UBSan, which must also stay silent. On inequality the scenario is re-run under both builds and the "
+               "full transcripts are diffed. Only x86-64 is available: word size and endianness are not varied.",
+    technique="cross-build differential monitor: per-scenario transcript digests compared across 14 build configurations incl. sanitizer builds",
+    level_note=LVL_NOTE + " No 32-bit or ARM toolchain/emulator in this sandbox; -funsigned-char is the one Cortex-M trait reproduced.",
+    title="Behaviour does not depend on compiler, optimisation level or char signedness",
+    rule="one evaluation = one scenario executed under one build; non-trivial = every scenario; distinct = distinct transcript digests (identical across builds by the oracle, so this counts distinct scenarios)",
+    assumptions=["the harness itself uses only uint8_t/fixed-width types for data so that -funsigned-char cannot change its own behaviour", "the C++ wrapper's transcripts are covered by C15 under g++ and clang++"],
+    post="compare_transcripts",
+    jobs=[dict(name="xs_" + b, src=XS, build=b, mode="c18", cases=(40000, 1000000), require=["transcript_bytes", "documents_valid", "documents_invalid", "text_scenarios", "writer_scenarios"]) for b in _XSB],
+)
+
+FOOT = ["w_foot.c", "vh.c"]
+ENGINE_NOTES["w_foot.c"] = "footprint monitors: allocator interposer, painted alternate stack, writable-segment snapshot of the library built as .so, interleaved/threaded sessions, coverage of the workload"
+_WRAP = "-Wl,-z,now " + " ".join("-Wl,--wrap=" + f for f in ["malloc", "calloc", "realloc", "free", "aligned_alloc", "posix_memalign", "strdup", "strndup", "mmap", "sbrk"])
+BUILDS["plainOs"] = dict(cc="gcc", cxx="g++", flags="-Os -g")
+BUILDS["cov"] = dict(cc="gcc", cxx="g++", flags="-O0 -g --coverage")
+_FJ = []
+for _b in ("plainO0", "plainO2", "plainOs"):
+    for _pr, _defs in (("p", "-DBINSON_PARSER_WITH_PRINT"), ("n", "")):
+        _FJ.append(dict(name="alloc_%s%s" % (_b[5:], _pr), src=FOOT, build=_b, defs=_defs, hdefs="-DFOOT_WRAP", ldflags=_WRAP, mode="alloc", cases=(40000, 600000), require=["library_calls"]))
+        _FJ.append(dict(name="stack_%s%s" % (_b[5:], _pr), src=FOOT, build=_b, defs=_defs, ldflags="-Wl,-z,now", mode="stack", cases=(16, 16), require=["stack_measurements"]))
+    _FJ.append(dict(name="seg_%s" % _b[5:], src=FOOT, build=_b, solib=True, ldflags="-Wl,-z,now", mode="seg", cases=(40000, 600000), require=["library_calls", "max_writable_segment_bytes"]))
+_FJ.append(dict(name="inter", src=FOOT, build="gasan", mode="inter", cases=(60000, 1000000), require=["interleaved_calls"]))
+_FJ.append(dict(name="tsan", src=FOOT, build="tsan", mode="tsan", cases=(16, 16), workers=4, require=["threaded_sessions"], crash_is_violation=True))
+_FJ.append(dict(name="cov", src=FOOT, build="cov", mode="cov", cases=(40000, 200000), coverage=True, require=["library_calls"]))
+CHECKS["C17"] = dict(
+    level_text="The statement asks for a static fact about the object code; runtime monitoring decides the same claim on the executions driven, with the reach of the workload measured (gcov line coverage of "
+               "binson_parser.c / binson_writer.c, inconclusive below 90 %). Monitors on gcc -O0/-O2/-Os with and without BINSON_PARSER_WITH_PRINT: allocator interposer (10 allocation entry points wrapped at "
+               "link time, counted only while a library call is in progress), painted alternate stack (high-water mark over object nesting {1,8,64,255} x array nesting {1,255} x string {1,70000} must "
+               "agree within 64 B and stay under 3 KiB incl. harness frame; text functions within 1 KiB and under 48 KiB), writable PT_LOAD segments of the library built as a .so hashed before/after the "
+               "workload, two sessions interleaved call by call, and 8 threads with private objects under ThreadSanitizer.",
+    technique="runtime footprint monitors: link-time allocator interposer, painted makecontext stack, ELF writable-segment snapshot, interleaved and TSan-threaded sessions; gcov reach evidence",
+    level_note=LVL_NOTE + " Weaker than the statement: paths the workload does not execute are not covered (uncovered lines are listed in the evidence).",
+    title="No heap, no recursion, no writable globals: footprint fixed by the caller",
+    rule="alloc/seg/cov: one case = one document (valid tree / ladder / mutant) driven through init, verify, navigation, lookups, getters, get_raw, to_writer, to_string, print and a writer call list; "
+         "stack: one measurement per (object nesting, array nesting, string length) and call family; inter: one pair of sessions; tsan: 8 threads x 200 sessions x 20 repetitions per worker. "
+         "non-trivial = every case; distinct = hash(document, depth) / measurement parameters / session pair",
+    assumptions=["--wrap rewrites only references from the linked objects (library + harness), so glibc's own stdio buffers are not counted", "stack measurements include a constant harness frame",
+                 "a write to static data that restores the old value before the end of the workload would not change the segment hash"],
+    post="coverage",
+    jobs=_FJ,
+)
